@@ -766,6 +766,30 @@ func c04bSameTree(a, b []*c04bNode, path string, pairs *[]c04bDeclPair) string {
 	return ""
 }
 
+// c04bUnbalanced: parentheses or square brackets that are not closed inside their declaration / prelude swallow the rest
+// of the style sheet into one component value (CSS Syntax 3 §5.4.8): parse-error territory.
+func c04bUnbalanced(src string) bool {
+	var stack []byte
+	for _, t := range c04bLex(src) {
+		switch t.tt {
+		case pcss.LeftParenthesisToken, pcss.FunctionToken:
+			stack = append(stack, ')')
+		case pcss.LeftBracketToken:
+			stack = append(stack, ']')
+		case pcss.LeftBraceToken:
+			stack = append(stack, '}')
+		case pcss.RightParenthesisToken, pcss.RightBracketToken, pcss.RightBraceToken:
+			if len(stack) == 0 || stack[len(stack)-1] != t.data[0] {
+				return true
+			}
+			stack = stack[:len(stack)-1]
+		case pcss.BadStringToken, pcss.BadURLToken:
+			return true
+		}
+	}
+	return len(stack) != 0
+}
+
 // c04bHasJunk: does the tree contain anything that is not a rule, at-rule or declaration (parse-error territory)?
 func c04bHasJunk(ns []*c04bNode) bool {
 	for _, n := range ns {
